@@ -31,6 +31,7 @@ use crate::bitsink::BitSink;
 use crate::bitsink::MemSink;
 use crate::constant::panic_msg;
 use crate::constant::qlpc::MAX_ORDER as MAX_LPC_ORDER;
+use crate::constant::rice::MAX_PARTITION_ORDER;
 use crate::constant::MAX_CHANNELS;
 use crate::error::verify_range;
 use crate::error::verify_true;
@@ -2015,6 +2016,7 @@ impl FixedLpc {
         let warm_up = heapless::Vec::from_slice(warm_up)
             .map_err(|()| VerifyError::new("warm_up", "must be shorter than (or equal to) 4"))?;
         let ret = Self::from_parts(warm_up, residual, bits_per_sample as u8);
+        ret.verify()?;
         Ok(ret)
     }
 
@@ -2112,6 +2114,11 @@ impl Lpc {
                 "must be shorter than (or equal to) `qlpc::MAX_ORDER`",
             )
         })?;
+        verify_true!(
+            "warm_up.len",
+            warm_up.len() == parameters.order(),
+            "must be the same as the order of `parameters`"
+        )?;
         let ret = Self::from_parts(warm_up, parameters, residual, bits_per_sample as u8);
         ret.verify()?;
         Ok(ret)
@@ -2212,6 +2219,12 @@ impl QuantizedParameters {
         shift: i8,
         precision: usize,
     ) -> Result<Self, VerifyError> {
+        verify_range!("order", order, ..=MAX_LPC_ORDER)?;
+        verify_true!(
+            "coefs.len",
+            coefs.len() == order,
+            "must be the same as `order`"
+        )?;
         let ret = Self::from_parts(coefs, order, shift, precision);
         // `QuantizedParameter` doesn't have a child component, so calling
         // `verify` here is not redundant whereas it incurs redundant checks
@@ -2309,6 +2322,12 @@ impl Residual {
         remainders: &[u32],
     ) -> Result<Self, VerifyError> {
         // Some pre-construction verification
+        verify_range!("partition_order", partition_order, ..=MAX_PARTITION_ORDER)?;
+        verify_true!(
+            "rice_params.len",
+            rice_params.len() == 1usize << partition_order,
+            "must be the same as the number of partitions"
+        )?;
         let ret = Self::from_parts(
             partition_order as u8,
             block_size,
